@@ -125,6 +125,7 @@ class SeqRun(object):
             incomplete_project=conf.placement.incomplete_consumer_project_id,
             incomplete_user=conf.placement.incomplete_consumer_user_id)
         self.gen = workload.Gen(self.rng, **self.gen_kwargs)
+        self.gen.accept_variants = True
         self.raw = dump.raw(w)
         self.nat = dump.natural(w, self.raw)
 
@@ -209,7 +210,10 @@ class SeqRun(object):
                          (resp.body or b'')[:200]), op, rbrief)
             self.stop = True
         else:
-            if exp.code and v >= (1, 23):
+            if exp.code and v >= (1, 23) and not (
+                    (op.get('h') or {}).get('accept') and
+                    not M.json_acceptable(op['h']['accept'])):
+                # (an error is rendered in a type the client accepts)
                 code = resp.error_code()
                 if code != exp.code and code not in exp.alt_codes:
                     self.add({'C11'}, 'error-code',
